@@ -2,19 +2,19 @@
 From Coq Require Import List ZArith NArith Bool Lia.
 From RecordUpdate Require Import RecordSet.
 From PC.Base Require Import Assoc.
-From PC.Sup Require Import Model Monitors Check Tactics Sim ObsFacts Effects RelCore LemC04 LemC04b.
+From PC.Sup Require Import Model Monitors Check Tactics Sim ObsFacts Effects RelCore LemC04 LemC04b LemC04c.
 Import ListNotations RecordSetNotations.
 
 (* ---- the ghost: facts about the history that neither the model state nor the observer keeps ---------- *)
 Record ghost := mkG {
   g_sp : list iid;      (* wait-group tokens: one entry per ESpawn whose inst_exit release has not happened yet *)
   g_wp : list tid;      (* threads whose last event was inst_exit (waitGroup.Done() is next) *)
-  g_tp : list tid;      (* threads whose last event was exit_trigger (exitCodeOnce.Do is next) *)
-  g_badb : bool }.      (* an instance goroutine began (EBegin) without a preceding ESpawn of that instance *)
-#[export] Instance eta_ghost : Settable _ := settable! mkG <g_sp; g_wp; g_tp; g_badb>.
+  g_tp : list tid }.    (* threads whose last event was exit_trigger (exitCodeOnce.Do is next) *)
+#[export] Instance eta_ghost : Settable _ := settable! mkG <g_sp; g_wp; g_tp>.
 
-Definition ghost0 := mkG [] [] [] false.
-Definition gbad (g : ghost) : bool := g_badb g.
+Definition ghost0 := mkG [] [] [].
+(* no side condition is left: the generic simulation theorem is used with a flag that is never raised *)
+Definition gbad (g : ghost) : bool := false.
 
 Definition gflush (o : obs) (th : tid) (g : ghost) : ghost :=
   let g1 := if memN th (g_wp g)
@@ -26,7 +26,6 @@ Definition gflush (o : obs) (th : tid) (g : ghost) : ghost :=
 Definition gcore (o : obs) (th : tid) (e : event) (g : ghost) : ghost :=
   match e with
   | ESpawn i _ => g <| g_sp := i :: g_sp g |>
-  | EBegin i => g <| g_badb := g_badb g || negb (memN i (g_sp g)) |>
   | EInstExit => g <| g_wp := th :: g_wp g |>
   | EExitTrigger _ => g <| g_tp := th :: g_tp g |>
   | _ => g
@@ -34,12 +33,8 @@ Definition gcore (o : obs) (th : tid) (e : event) (g : ghost) : ghost :=
 
 Definition gstep (o : obs) (g : ghost) (te : tid * event) : ghost := gcore o (fst te) (snd te) (gflush o (fst te) g).
 
-Lemma gflush_bad o th g : gbad (gflush o th g) = gbad g.
-Proof. unfold gflush, gbad. destruct (memN th (g_wp g)); cbn; match goal with |- context[if ?b then _ else _] => destruct b end; reflexivity. Qed.
-Lemma gcore_bad_mono o th e g : gbad g = true -> gbad (gcore o th e g) = true.
-Proof. unfold gbad. intros H. destruct e; cbn; try exact H. rewrite H. reflexivity. Qed.
 Lemma gstep_bad_mono o g e : gbad g = true -> gbad (gstep o g e) = true.
-Proof. intros H. unfold gstep. apply gcore_bad_mono. now rewrite gflush_bad. Qed.
+Proof. intros H. exact H. Qed.
 
 (* ---- the relation ------------------------------------------------------------------------------------ *)
 Definition Pown (s : sys) (g : ghost) (th : tid) (i : iid) (x : inst) : Prop :=
@@ -78,7 +73,10 @@ Record R4 (s : sys) (o : obs) (g : ghost) : Prop := mkR4 {
                                         (snd t = false \/ o_api_sd_first o = true);
   r_c2 : forall th c, pk (pend (get_thread s th)) = PC c ->
          exists t, In t (o_triggers o) /\ snd (fst t) = c /\ (code_set s = true \/ snd t = false \/ o_api_sd_first o = true);
-  r_c3 : o_triggers o <> [] -> code_set s = true \/ exists th, memN th (g_tp g) = true
+  r_c3 : o_triggers o <> [] -> code_set s = true \/ exists th, memN th (g_tp g) = true;
+  (* hardened model: a spawned instance whose goroutine has not begun holds a token; begun instances have no stage *)
+  r_stage : forall i c, get i (stage s) = Some (c, 3) -> In i (g_sp g);
+  r_nostage : forall th i, get th (thinst s) = Some i -> get i (stage s) = None
 }.
 
 Lemma R4_init ord : R4 (init cs ord) (obs0 cs) ghost0.
@@ -112,9 +110,11 @@ Lemma R4_frame s o g s0 g0 :
   (code_set s = false -> code_set s0 = true ->
      exists t, In t (o_triggers o) /\ snd (fst t) = proj_code s0 /\ (snd t = false \/ o_api_sd_first o = true)) ->
   (forall th' c, pk (pend (get_thread s0 th')) = PC c -> pk (pend (get_thread s th')) = PC c) ->
+  stage s0 = stage s ->
+  (forall j c, get j (stage s) = Some (c, 3) -> In j (g_sp g) -> In j (g_sp g0)) ->
   R4 s0 o g0.
 Proof.
-  intros HR Hsame Hthi Hins Hthr Hcs Hwg Hwp Htp Hwsub Htsub Hsp Htrig Hc0 Hc1 Hc2.
+  intros HR Hsame Hthi Hins Hthr Hcs Hwg Hwp Htp Hwsub Htsub Hsp Htrig Hc0 Hc1 Hc2 Hstg Hsp3.
   assert (Hback : forall j x', get j (insts s0) = Some x' ->
             exists x, get j (insts s) = Some x /\ pc x' = pc x /\ alive x' = alive x /\ exited x' = exited x).
   { intros j x' Hx'. specialize (Hins j). destruct (get j (insts s)) as [x|]; [|congruence].
@@ -155,6 +155,8 @@ Proof.
     destruct Hd as [Hd|Hd]; [left; now apply Hmono|now right].
   - intros H. destruct (r_c3 _ _ _ HR H) as [H1|(th & H1)]; [left; now apply Hmono|].
     destruct (Htrig _ H1) as [H2|H2]; [now left|right; eauto].
+  - rewrite Hstg. intros i c Hi. eapply Hsp3; eauto. apply (r_stage _ _ _ HR i c Hi).
+  - rewrite Hstg, Hthi. apply (r_nostage _ _ _ HR).
 Qed.
 
 Lemma pk_none_upd (t : thread) : pk (pend (t <| pend := None |>)) = PO.
@@ -199,6 +201,8 @@ Proof.
     + rewrite F5, F6. auto.
     + rewrite F5. congruence.
     + intros th' c. rewrite Hpk. destruct (N.eqb th th'); [discriminate|auto].
+    + apply flush_stage.
+    + intros j c Hj Hinj. apply rem1_other; [|exact Hinj]. intros ->. rewrite (r_nostage _ _ _ HR th i Hti) in Hj. discriminate.
   - (* exitCodeOnce.Do *)
     assert (Ht : memN th (g_tp g) = true) by (apply (r_tp _ _ _ HR); eauto).
     assert (Hw : memN th (g_wp g) = false).
@@ -223,6 +227,8 @@ Proof.
     + intros Hcs _. rewrite F6, Hcs. destruct (r_c2 _ _ _ HR th c Epk) as (t & Hin & Hc & Hd). exists t. repeat split; auto.
       destruct Hd as [Hd|Hd]; [congruence|exact Hd].
     + intros th' c'. rewrite Hpk. destruct (N.eqb th th'); [discriminate|auto].
+    + apply flush_stage.
+    + auto.
   - (* nothing (or a latch release) pending *)
     assert (Hw : memN th (g_wp g) = false).
     { destruct (memN th (g_wp g)) eqn:E; [|reflexivity]. apply (r_wp _ _ _ HR) in E. congruence. }
@@ -247,6 +253,8 @@ Proof.
     + rewrite F5, F6. auto.
     + rewrite F5. congruence.
     + intros th' c'. rewrite Hpk. destruct (N.eqb th th'); [discriminate|auto].
+    + apply flush_stage.
+    + auto.
 Qed.
 (*STOP*)
 
@@ -270,7 +278,8 @@ Proof. auto. Qed.
 Lemma cl_next_nopre e c : cl_pre e = None -> cl_next e c = c.
 Proof. destruct e; cbn; auto; discriminate. Qed.
 
-Lemma g_begin2 s th i s' : step_core s th (EBegin i) = Some s' -> s' = s <| thinst := set th i (thinst s) |>.
+Lemma g_begin2 s th i s' : step_core s th (EBegin i) = Some s' ->
+  s' = s <| thinst := set th i (thinst s) |> <| stage := del i (stage s) |>.
 Proof. intros H. unfold step_core in H. break_step H. now subst. Qed.
 
 Lemma alive_next_cases ow e j a : alive_next ow e j a = true ->
@@ -316,10 +325,11 @@ Proof. destruct e; try (right; intros; discriminate). left. eauto. Qed.
 
 Lemma R4_core s o g th e s' :
   R4 cs s o g -> pend (get_thread s th) = None -> step_core s th e = Some s' ->
-  Rc cs s' (obs_step cs o (th, e)) -> gbad (gcore o th e g) = false ->
+  Rc cs s' (obs_step cs o (th, e)) ->
   R4 cs s' (obs_step cs o (th, e)) (gcore o th e g).
 Proof.
-  intros HR Hp H HRc Hbad.
+  intros HR Hp H HRc.
+  pose proof (core_stage _ _ _ _ H) as HSt.
   pose proof (core_inst_eff' _ _ _ _ H) as HI.
   pose proof (core_none _ _ _ _ H) as HN.
   destruct (core_scal _ _ _ _ H) as (Swg & Scs & Spc & Sthi & Sthr).
@@ -401,8 +411,7 @@ Proof.
       assert (Eow : own (thinst s) th i = false) by (apply own_false_of; congruence). rewrite Eow in Ecl.
       assert (Et0 : get_thread s' th = thread0) by (subst s'; unfold get_thread; cbn; now rewrite Hthr0).
       unfold Pown. rewrite Et0. cbn [apc dpc thread0]. repeat split; try congruence.
-      - intros _. cbn. unfold gbad in Hbad. cbn in Hbad. apply orb_false_iff in Hbad. destruct Hbad as [_ Hb].
-        apply negb_false_iff in Hb. now apply memN_In.
+      - intros _. apply Gsp. cbn in HSt. destruct HSt as (_ & c3 & Hc3). exact (r_stage _ _ _ _ HR i c3 Hc3).
       - intros Hc. exfalso. destruct (rc_inst _ _ _ HRc0 i x Hx) as (xo & Hxo & _).
         destruct (r_inst _ _ _ _ HR i x xo Hx Hxo) as (_ & _ & _ & D & _).
         destruct D as (t & Ht'); [congruence|]. eapply Hne; eauto. }
@@ -526,6 +535,29 @@ Proof.
     + assert (Etr : o_triggers (obs_step cs o (th, e)) = o_triggers o) by (rewrite obs_trig; destruct e; try reflexivity; exfalso; eapply Hnt; reflexivity).
       rewrite Etr in Hne. rewrite Scs. destruct (r_c3 _ _ _ _ HR Hne) as [Hc|(t & Ht)]; [now left|].
       right. exists t. rewrite Gtp. destruct (N.eqb_spec t th); [subst; congruence|exact Ht].
+  - (* a spawned, not yet begun instance holds a token *)
+    intros j c Hj. unfold stage_eff in HSt.
+    assert (Hold : get j (stage s) = Some (c, 3) -> In j (g_sp (gcore o th e g))) by (intros Ho; apply Gsp; exact (r_stage _ _ _ _ HR j c Ho)).
+    destruct e; try (rewrite HSt in Hj; now apply Hold).
+    + rewrite HSt, get_set in Hj. destruct (N.eqb_spec i j); [discriminate|now apply Hold].
+    + destruct HSt as [HSt _]. rewrite HSt, get_set in Hj. destruct (N.eqb_spec i j); [discriminate|now apply Hold].
+    + destruct HSt as [HSt _]. rewrite HSt, get_set in Hj. cbn. destruct (N.eqb_spec i j); [now left|right].
+      exact (r_stage _ _ _ _ HR j c Hj).
+    + destruct HSt as [HSt _]. rewrite HSt, get_del in Hj. destruct (N.eqb_spec i j); [discriminate|now apply Hold].
+    + destruct HSt as [HSt|[HSt _]]; rewrite HSt in Hj; [now apply Hold|].
+      rewrite get_set in Hj. destruct (N.eqb_spec i j); [discriminate|now apply Hold].
+  - (* begun instances have left the creation stages *)
+    intros t j Ht. unfold stage_eff in HSt. destruct (Hthi' _ _ Ht) as [A|(A & B & C)].
+    2:{ subst e t. destruct HSt as [HSt _]. rewrite HSt. apply get_del_same. }
+    pose proof (r_nostage _ _ _ _ HR t j A) as Hn.
+    destruct e; try (rewrite HSt; exact Hn).
+    + rewrite HSt, get_set. destruct (N.eqb_spec i j); [|exact Hn]. subst i.
+      destruct (newinst_eff _ _ _ _ _ H) as (Hnone & _). destruct (r_thi _ _ _ _ HR t j A) as (x & Hx). congruence.
+    + destruct HSt as [HSt Hg]. rewrite HSt, get_set. destruct (N.eqb_spec i j); [subst; congruence|exact Hn].
+    + destruct HSt as [HSt Hg]. rewrite HSt, get_set. destruct (N.eqb_spec i j); [subst; congruence|exact Hn].
+    + destruct HSt as [HSt _]. rewrite HSt, get_del. destruct (N.eqb i j); [reflexivity|exact Hn].
+    + destruct HSt as [HSt|[HSt Hg]]; rewrite HSt; [exact Hn|].
+      rewrite get_set. destruct (N.eqb_spec i j); [subst; congruence|exact Hn].
 Qed.
 
 (* at ERunReturn the monitor's check follows from the relation *)
@@ -567,10 +599,10 @@ Proof.
       apply filter_In. split; [exact Hin|]. destruct Hd as [Hd|Hd]; [now rewrite Hd|discriminate].
 Qed.
 
-Lemma R4_step s o g te s' : R4 cs s o g -> step s te = Some s' -> gbad (gstep o g te) = false ->
+Lemma R4_step s o g te s' : R4 cs s o g -> step s te = Some s' ->
   R4 cs s' (obs_step cs o te) (gstep o g te) /\ mon_C04 cs o te = true.
 Proof.
-  intros HR H Hbad. destruct te as [th e]. pose proof (Rc_step cs _ _ _ _ _ (r_core _ _ _ _ HR) H) as HRc.
+  intros HR H. destruct te as [th e]. pose proof (Rc_step cs _ _ _ _ _ (r_core _ _ _ _ HR) H) as HRc.
   unfold step in H. cbn [fst snd] in H. unfold gstep in *. cbn [fst snd] in *.
   destruct (R4_flush cs _ _ _ th HR) as (HR0 & Hp0).
   split; [now apply (R4_core _ _ _ _ _ _ HR0 Hp0 H)|].
@@ -580,27 +612,24 @@ Qed.
 End Core.
 
 (* ---- the theorem ------------------------------------------------------------------------------------- *)
-(* the decidable side condition on a history: [ghost_of] folds the ghost along the history *)
-Definition ghost_of (cs : amap pconf) (evs : list (tid * event)) : ghost :=
-  grun cs ghost gstep (obs0 cs) ghost0 evs.
-Definition C04_disciplined (cs : amap pconf) (evs : list (tid * event)) : bool := negb (gbad (ghost_of cs evs)).
-
-Theorem C04_main_partial_lemma : forall cs ord evs s,
-  accept (init cs ord) evs = Some s -> C04_disciplined cs evs = true -> holds_C04 cs evs = true.
+Theorem C04_main_lemma : forall cs ord evs s,
+  accept (init cs ord) evs = Some s -> holds_C04 cs evs = true.
 Proof.
-  intros cs ord evs s Hacc Hd. unfold holds_C04.
+  intros cs ord evs s Hacc. unfold holds_C04.
   apply (gsim_holds cs ord ghost ghost0 gstep gbad (R4 cs) (mon_C04 cs) (R4_init cs ord)) with (s := s).
   - intros s0 o g e s1 HR Hs Hb. eapply R4_step; eauto.
   - intros o g e. apply gstep_bad_mono.
   - exact Hacc.
-  - unfold C04_disciplined, ghost_of in Hd. now apply negb_true_iff in Hd.
+  - reflexivity.
 Qed.
 
-
-(* ---- the statement without the side condition is false of the model ---------------------------------- *)
+(* ---- concrete histories ------------------------------------------------------------------------------- *)
 Module C04Refute.
 Open Scope N_scope.
-(* (1) the model lets a goroutine begin for an instance that was never spawned (no waitGroup.Add): *)
+(* (1) under the first version of the model a goroutine could begin for an instance that was never spawned
+   (no waitGroup.Add) and Run() returned with its command alive; the hardened model rejects this history
+   (instance creation is staged on one thread: NewProcess by a creating API thread, Pending, registered,
+   spawned, begun), and evs1b, which is in order except for the missing ESpawn, is rejected exactly at EBegin: *)
 Definition cD := mkConf [] PNo 0 0 false false false false false false true.
 Definition cs1 : amap pconf := [(1, cD)].
 Definition evs1 : list (tid * event) :=
@@ -642,23 +671,25 @@ Definition evs2 : list (tid * event) :=
   (2, EStopEnter 1 true); (2, EStopReturn 1); (2, EStopEnter 2 true); (2, EStopReturn 2);
   (2, EShutdownEnd); (2, EShutdownUnlocked); (2, EExitCodeSet 7%Z); (2, EInstExit); (2, EWgDone);
   (1, ERunReturn 7%Z); (1, EApiReturn false)].
+Definition cN := mkConf [] PNo 0 0 false false false false false false false.
+Definition cs1b : amap pconf := [(1, cN)].
+Definition evs1b : list (tid * event) :=
+ [(0, EApiBegin OpRun); (0, ENewInst 1 1); (0, EState 1 SPending); (0, ERegAdd 1 1); (1, EBegin 1)].
 End C04Refute.
 
 Definition accepted_hist (cs : amap pconf) (ord : bool) (evs : list (tid * event)) : bool :=
   match accept (init cs ord) evs with Some _ => true | None => false end.
 
-(* "no early return" is refuted, outside every known window, when the history is not disciplined *)
-Lemma C04_refuted_nospawn_lemma :
-  exists cs ord evs s, accept (init cs ord) evs = Some s /\ no_windows cs evs = true /\ holds_C04 cs evs = false.
-Proof.
-  exists C04Refute.cs1, false, C04Refute.evs1.
-  destruct (accept (init C04Refute.cs1 false) C04Refute.evs1) as [s|] eqn:E; [|vm_compute in E; discriminate].
-  exists s. split; [reflexivity|]. split; vm_compute; reflexivity.
-Qed.
+Lemma C04_nospawn_rejected_lemma :
+  accept (init C04Refute.cs1 false) C04Refute.evs1 = None /\
+  accept (init C04Refute.cs1b false) C04Refute.evs1b = None /\
+  fst (accept_prefix (init C04Refute.cs1b false) C04Refute.evs1b 0) = 4.
+Proof. repeat split; vm_compute; reflexivity. Qed.
+
 (* regression: with the widened o_api_sd_first (API snapshot before the project exit code was fixed) the
    84-event history - formerly a counterexample to the exit-code clause - satisfies the monitor *)
 Lemma C04_api_shutdown_race_ok :
-  accepted_hist C04Refute.cs2 false C04Refute.evs2 = true /\ C04_disciplined C04Refute.cs2 C04Refute.evs2 = true /\
+  accepted_hist C04Refute.cs2 false C04Refute.evs2 = true /\
   holds_C04 C04Refute.cs2 C04Refute.evs2 = true /\ o_api_sd_first (final_obs C04Refute.cs2 C04Refute.evs2) = true.
 Proof. repeat split; vm_compute; reflexivity. Qed.
 
@@ -712,9 +743,9 @@ Proof.
 Qed.
 
 Theorem C04_declarative_lemma : forall cs ord evs s,
-  accept (init cs ord) evs = Some s -> C04_disciplined cs evs = true ->
+  accept (init cs ord) evs = Some s ->
   forall k th c, nth_error evs k = Some (th, ERunReturn c) -> C04_at_return (obs_at cs evs k) c.
 Proof.
-  intros cs ord evs s Hacc Hd k th c Hn. apply (mon_C04_spec cs _ th).
-  exact (holds_nth cs mon_C04 evs (C04_main_partial_lemma cs ord evs s Hacc Hd) k _ Hn).
+  intros cs ord evs s Hacc k th c Hn. apply (mon_C04_spec cs _ th).
+  exact (holds_nth cs mon_C04 evs (C04_main_lemma cs ord evs s Hacc) k _ Hn).
 Qed.
